@@ -18,9 +18,9 @@ EXPLANATION = (
     'primary, function and parenthesis bodies parsed at the loosest level, operands attached left/right unswapped); '
     'C07.2 symbol -> token -> operator tables compose to the arithmetic operators and every binary token is handled at '
     'exactly one level, operands passed in order; C07.3 the result is int(...) of the computed value, bitwise/shift '
-    'operands are converted with int and / is true division; C07.4 the lexer is total: characters no token can start '
+    'operands are converted with int, / is true division on exact rationals whatever the operands\' types, and once both operands are evaluated the only value returned is the _operations table entry applied to (left, right); C07.4 the lexer is total: characters no token can start '
     'with are rejected (gap check between matches) instead of skipped; C07.5 literal notations recognised by the '
-    'pattern and converted by parse_numeric_string agree (prefix/suffix, digit class, base), numeric is tried before '
+    'pattern and converted by parse_numeric_string agree (prefix/suffix, digit class, base), every branch of the decision list is keyed by a notation marker (a text without one is decimal), numeric is tried before '
     'label, BYTEn takes its index from the character after the literal BYTE and selects that little-endian byte. Not '
     'decided: numerical correctness of evaluation for all values (BYTEn arithmetic on arbitrary integers).'
 )
@@ -47,6 +47,14 @@ def _tok_set(ctx, fn, test):
         return None
     if isinstance(test, ast.Compare) and len(test.ops) == 1 and 'token_type' in unparse(test.left):
         right = test.comparators[0]
+        if isinstance(right, ast.Name) and isinstance(test.ops[0], ast.In):
+            # a module constant holding the collection (`_ADDITIVE = frozenset([TokenType.T_PLUS, TokenType.T_MINUS])`)
+            vals = fn.module.assigns.get(right.id) or []
+            if len(vals) == 1:
+                right = vals[0]
+                if isinstance(right, ast.Call) and isinstance(right.func, ast.Name) and right.func.id in ('frozenset', 'set', 'tuple', 'list') \
+                        and len(right.args) == 1 and not right.keywords:
+                    right = right.args[0]
         elts = right.elts if isinstance(right, (ast.List, ast.Tuple, ast.Set)) else [right]
         names = set()
         for e in elts:
